@@ -139,7 +139,7 @@ def finish(pid, tier, ctxs, t0, meta, explanation, assumptions, not_decided, see
     rc = 0
     n_viol = 0
     n_known = 0
-    rep_dir = os.path.join(VERIF, "reports", pid)
+    rep_dir = os.path.join(os.environ.get("VERIF_REPORTS_DIR", os.path.join(VERIF, "reports")), pid)
     for key, f in sorted(merged.items()):
         if key in known_keys:
             n_known += 1
@@ -204,8 +204,9 @@ def finish(pid, tier, ctxs, t0, meta, explanation, assumptions, not_decided, see
         "wall_s": round(time.time() - t0, 3),
         "violations": n_viol,
     }
-    os.makedirs(os.path.join(VERIF, "evidence"), exist_ok=True)
-    with open(os.path.join(VERIF, "evidence", pid + ".json"), "w") as fh:
+    ev_dir = os.environ.get("VERIF_EVIDENCE_DIR", os.path.join(VERIF, "evidence"))
+    os.makedirs(ev_dir, exist_ok=True)
+    with open(os.path.join(ev_dir, pid + ".json"), "w") as fh:
         json.dump(ev, fh, indent=1, default=str)
     total_inst = sum(r["instances"] for r in rules_cov)
     print("%s %s: %d rules, %d instances analysed, %d violations, %d known findings, %.1fs" % (
